@@ -127,6 +127,22 @@ func main() {
 			seed = v
 		}
 	}
+	replayFP := ""
+	if replay != "" {
+		// a replay reruns the property's deterministic workload at the recorded seed and
+		// tier and reports whether the recorded fingerprint recurs on the current tree
+		var rec struct {
+			Seed      int64        `json:"seed"`
+			Tier      string       `json:"tier"`
+			Violation rt.Violation `json:"violation"`
+		}
+		b, err := ioutil.ReadFile(filepath.Join(replay, "violation.json"))
+		if err != nil || json.Unmarshal(b, &rec) != nil || rec.Violation.Fingerprint == "" {
+			fmt.Println("INCONCLUSIVE property=" + id + " unreadable replay bundle " + replay)
+			os.Exit(2)
+		}
+		seed, tier, replayFP = rec.Seed, rec.Tier, rec.Violation.Fingerprint
+	}
 	t0 := time.Now()
 	out := &Outcome{Prop: id, Tier: tier, Seed: seed, Level: p.Level, Rule: p.Rule, distinct: map[string]bool{}, Counters: map[string]int{}, ViolCount: map[string]int{}}
 	ws, err := pipeline.New()
@@ -149,6 +165,18 @@ func main() {
 				}()
 				p.Check(r)
 			}()
+		}
+		if replayFP != "" {
+			var keep []rt.Violation
+			for _, v := range out.Violations {
+				if v.Fingerprint == replayFP {
+					keep = append(keep, v)
+				}
+			}
+			out.Violations = keep
+			if len(keep) == 0 {
+				fmt.Printf("REPLAY property=%s fingerprint %q does not recur on the current tree\n", id, replayFP)
+			}
 		}
 		return finish(out, time.Since(t0))
 	}()
@@ -223,7 +251,7 @@ func finish(o *Outcome, wall time.Duration) int {
 		seenFP[v.Fingerprint] = true
 		dir := filepath.Join(pipeline.VerifDir, "evidence", "replays", o.Prop, fmt.Sprintf("%d", i))
 		os.MkdirAll(dir, 0o755)
-		b, _ := json.MarshalIndent(v, "", " ")
+		b, _ := json.MarshalIndent(map[string]interface{}{"seed": o.Seed, "tier": o.Tier, "violation": v}, "", " ")
 		ioutil.WriteFile(filepath.Join(dir, "violation.json"), b, 0o644)
 		lines = append(lines, fmt.Sprintf("VIOLATION property=%s replay=%s", o.Prop, dir))
 		fmt.Fprintf(os.Stderr, "violation %s [%s] case=%s type=%s input=%s: %s\n", o.Prop, v.Fingerprint, v.Case, v.Type, v.Input, v.Message)
